@@ -1,7 +1,49 @@
 """Mechanism classification of E2 monitor reports into known-finding ids (known_findings.json).
-A report is classified only when its mechanism is positively identified from the failing operation,
-the exception and the differing state component - never by seed, case hash or value."""
+A report is classified only when its mechanism is positively identified - by the failing operation,
+the exception and the differing state component, or by a *deviation replay* (the same history re-run
+with the suspected trigger removed no longer produces the report) - never by seed, case hash or value."""
+from vlib import common
+
+
+def _replay_has(spec, ops, key, **kw):
+    from vlib import hops
+    d = common.scratch_dir()
+    try:
+        eng = hops.replay_ops(spec, ops, d, name='cls', **kw)
+        return any((r.monitor, r.kind) == key for r in eng.reports)
+    finally:
+        import shutil; shutil.rmtree(d, ignore_errors=True)
 
 
 def classify(pid, report, eng, ops):
+    mon, kind, det = report.monitor, report.kind, report.detail if isinstance(report.detail, dict) else {}
+    key = (mon, kind)
+
+    # --- seed (pk-only object) whose many-to-one reference is reassigned, then the OLD parent's collection is
+    #     loaded from the database: the load puts the object back into the old parent's collection.
+    if mon in ('cachemodel', 'read', 'commit', 'reverse', 'cascade', 'index', 'identity'):
+        # deviation replay: with every handle fully loaded (no pk-only seeds) the report must disappear,
+        # and the history must really have operated on seeds
+        if eng.counts.get('seed_handles', 0) and not _replay_has(eng.spec, ops, key, force_load=True):
+            return pid + '-UNLOADED-SEED-REVERSE-NOT-MAINTAINED'
+
+        # an object deleted (directly or by cascade) while the session only had it as a pk-only seed / not loaded
+        # at all stays in its parent's partially loaded collection: the report must name exactly such an object
+        sd = det.get('seed_deleted') or []
+        if sd:
+            import json
+            text = json.dumps(det.get('diffs') or {k: v for k, v in det.items() if k not in ('seed_deleted', 'seed_reassigned', 'op')}, default=repr)
+            if any(name in text for name in sd):
+                return pid + '-UNLOADED-SEED-REVERSE-NOT-MAINTAINED'
+
+    # --- atomicity mechanisms (C13), identified by failing operation + exception + differing component
+    if mon == 'atomic':
+        mech = det.get('mechanism', '')
+        exc = det.get('exc')
+        op = det.get('op', {}).get('op')
+        # cascade chains that come back to an object already being deleted (cycle of cascade_delete
+        # relationships), or that delete the very object being assigned, fail midway
+        if exc in ('RecursionError', 'OperationWithDeletedObjectError', 'AssertionError') and \
+                (det.get('cascade_cycle') or det.get('model_expected_refusal') == 'deleted' or exc == 'RecursionError'):
+            return pid + '-CASCADE-CYCLE-FAILS-MIDWAY'
     return None
